@@ -1,6 +1,7 @@
 import JSight.Basic
 import JSight.Model.Build
 import JSight.Model.PathBind
+import JSight.Model.SchemaContent
 /-!
 Line-protocol driver of the catalog-construction model (`Model/Build.lean`).
 
@@ -137,8 +138,75 @@ def handleBind (toks : List String) : String :=
         h p ++ "=" ++ sep "+" ((PathBind.variablesOf m p).map fun (n, id) => h n ++ "@" ++ toString id))
   | _, _ => "bad-op"
 
+/-! prefix encoding of the schema library's AST:
+   A <tokenType> <schemaType> <key> <value> <comment> <isKeyShortcut 0|1> <#rules> <#children>  {K <key> R…}  {A…}
+   R <tokenType> <value> <comment> <generated 0|1> <#props> <#items>  {K <key> R…}  {R…} -/
+mutual
+  partial def parseRuleAst : List String → Option (SC.RuleAst × List String)
+    | "R" :: tt :: v :: c :: g :: np :: ni :: rest => do
+      let tt ← hx tt; let v ← hx v; let c ← hx c
+      let np ← np.toNat?; let ni ← ni.toNat?
+      let (props, r1) ← parseKeyed np rest
+      let (items, r2) ← parseRules ni r1
+      pure (.node tt v c props items (g == "1"), r2)
+    | _ => none
+  partial def parseKeyed : Nat → List String → Option (List (Bytes × SC.RuleAst) × List String)
+    | 0, r => some ([], r)
+    | n + 1, "K" :: k :: r => do
+      let k ← hx k
+      let (x, r1) ← parseRuleAst r
+      let (xs, r2) ← parseKeyed n r1
+      pure ((k, x) :: xs, r2)
+    | _, _ => none
+  partial def parseRules : Nat → List String → Option (List SC.RuleAst × List String)
+    | 0, r => some ([], r)
+    | n + 1, r => do
+      let (x, r1) ← parseRuleAst r
+      let (xs, r2) ← parseRules n r1
+      pure (x :: xs, r2)
+end
+
+mutual
+  partial def parseAst : List String → Option (SC.Ast × List String)
+    | "A" :: tt :: st :: k :: v :: c :: ks :: nr :: nc :: rest => do
+      let tt ← hx tt; let st ← hx st; let k ← hx k; let v ← hx v; let c ← hx c
+      let nr ← nr.toNat?; let nc ← nc.toNat?
+      let (rules, r1) ← parseKeyed nr rest
+      let (kids, r2) ← parseAsts nc r1
+      pure (.node tt st k v c rules kids (ks == "1"), r2)
+    | _ => none
+  partial def parseAsts : Nat → List String → Option (List SC.Ast × List String)
+    | 0, r => some ([], r)
+    | n + 1, r => do
+      let (x, r1) ← parseAst r
+      let (xs, r2) ← parseAsts n r1
+      pure (x :: xs, r2)
+end
+
+mutual
+  partial def showRuleC : SC.RuleC → String
+    | .node k t sc n cs => sep " " (["r", h k, h t, h sc, h n, toString cs.length] ++ cs.map showRuleC)
+end
+
+mutual
+  partial def showContent : SC.Content → String
+    | .node k t ty sc n rs cs kr o =>
+      sep " " (["C", (match k with | none => "~" | some k => h k), h t, h ty, h sc, h n, (if kr then "1" else "0"),
+        (if o then "1" else "0"), toString rs.length, toString cs.length] ++ rs.map showRuleC ++ cs.map showContent)
+end
+
+def handleContent (toks : List String) : String :=
+  match parseAst toks with
+  | some (a, []) =>
+    match SC.contentOf a [] with
+    | .ok (c, used) => "ok " ++ showContent c ++ " | " ++ sep " " (used.map h)
+    | .error (.emptyValue r) => "fault emptyValue " ++ h r
+    | .error .optionalNotBool => "fault optional"
+  | _ => "bad-arg"
+
 def handle (line : String) : String :=
   match (line.splitOn " ").filter (· ≠ "") with
+  | "content" :: toks => handleContent toks
   | "bind" :: toks => handleBind toks
   | "build" :: banned :: toks =>
     let bans : List Kind := if banned == "-" then [] else (banned.splitOn ",").filterMap fun s => s.toNat?.bind fun i => Kind.all[i]?
@@ -153,8 +221,12 @@ def handle (line : String) : String :=
 partial def loop (hIn : IO.FS.Stream) (hOut : IO.FS.Stream) : IO Unit := do
   let line ← hIn.getLine
   if line.isEmpty then return ()
-  hOut.putStrLn (handle (line.trimAscii.toString))
-  hOut.flush
+  let l := line.trimAscii.toString
+  if l == "flush" then
+    hOut.flush
+  else
+    hOut.putStrLn (handle l)
+    hOut.flush
   loop hIn hOut
 
 def main : IO Unit := do loop (← IO.getStdin) (← IO.getStdout)
